@@ -223,3 +223,11 @@ Definition bd_dec (m : N) : bd_state :=
      out := {| o_valid := nb v; o_next := nb n; o_first := nb fi; o_last := nb la;
                o_complete := nb co; o_invalid := nb iv; o_payload := pl |};
      buf := m; is_first := nb isf; buf_c := nb bc; buf_i := nb bi |}.
+
+(* the environment assumption as a predicate on (model state, input word), for the lock-step tie:
+   in the cycle the model spends reporting strobes (right after a packet ended) no byte is presented *)
+Definition bd_menv (s : bd_state) (w : N) : bool :=
+  match fsm s with
+  | OUTPUT_STROBES => negb (i_valid (bd_in_of w) && i_next (bd_in_of w))
+  | _ => true
+  end.
